@@ -66,3 +66,45 @@ pub proof fn thm_thomas_solves(up: Seq<real>, mid: Seq<real>, low: Seq<real>, rh
         }
     }
 }
+
+// ---- uniqueness: with non-zero pivots, ANY solution of the rows equals what thomas returns
+pub open spec fn row_holds(up: Seq<real>, mid: Seq<real>, low: Seq<real>, rhs: Seq<Seq<real>>, j: int, n: int, kk: Seq<real>, i: int) -> bool {
+    row_lhs(up, mid, low, n, i, kk[i - 1], kk[i], kk[i + 1]) == rhs[i][j]
+}
+pub open spec fn solves_rows(up: Seq<real>, mid: Seq<real>, low: Seq<real>, rhs: Seq<Seq<real>>, j: int, n: int, kk: Seq<real>) -> bool {
+    forall|i: int| 0 <= i < n ==> #[trigger] row_holds(up, mid, low, rhs, j, n, kk, i)
+}
+pub proof fn lemma_elim(up: Seq<real>, mid: Seq<real>, low: Seq<real>, rhs: Seq<Seq<real>>, j: int, n: int, kk: Seq<real>, i: int)
+    requires n >= 1, 0 <= i < n, pivots_ok(up, mid, low, n), solves_rows(up, mid, low, rhs, j, n, kk)
+    ensures
+        i < n - 1 ==> piv(up, mid, low, i) * kk[i] + up[i] * kk[i + 1] == fwd(up, mid, low, rhs, j, i),
+        i == n - 1 ==> piv(up, mid, low, i) * kk[i] == fwd(up, mid, low, rhs, j, i),
+    decreases i
+{
+    assert(row_holds(up, mid, low, rhs, j, n, kk, i));
+    if i > 0 {
+        lemma_elim(up, mid, low, rhs, j, n, kk, i - 1);
+        let pp = piv(up, mid, low, i - 1);
+        assert(pp != 0real);
+        if i < n - 1 {
+            L_thomas_elim_row(low[i], mid[i], up[i], rhs[i][j], pp, up[i - 1], fwd(up, mid, low, rhs, j, i - 1), kk[i - 1], kk[i], kk[i + 1]);
+        } else {
+            L_thomas_elim_row_last(low[i], mid[i], rhs[i][j], pp, up[i - 1], fwd(up, mid, low, rhs, j, i - 1), kk[i - 1], kk[i]);
+        }
+    }
+}
+pub proof fn thm_thomas_unique(up: Seq<real>, mid: Seq<real>, low: Seq<real>, rhs: Seq<Seq<real>>, j: int, n: int, kk: Seq<real>, i: int)
+    requires n >= 1, 0 <= i < n, pivots_ok(up, mid, low, n), solves_rows(up, mid, low, rhs, j, n, kk)
+    ensures kk[i] == ksol(up, mid, low, rhs, j, n, i)
+    decreases n - i
+{
+    lemma_elim(up, mid, low, rhs, j, n, kk, i);
+    let p = piv(up, mid, low, i);
+    assert(p != 0real);
+    if i < n - 1 {
+        thm_thomas_unique(up, mid, low, rhs, j, n, kk, i + 1);
+        L_thomas_back_unique(p, up[i], fwd(up, mid, low, rhs, j, i), kk[i], kk[i + 1]);
+    } else {
+        L_thomas_back_unique_last(p, fwd(up, mid, low, rhs, j, i), kk[i]);
+    }
+}
